@@ -30,9 +30,13 @@ def build_envs(group):
         else:
             envs = cb.Environments.from_supervised(X, list(kw["Y"]), label_type=kw.get("label_type", "c"))
     else:
-        raise ValueError(kind)
+        # richer sources / filter chains shared with the C04 generator (lambda, CSV / LibSVM supervised, result-based, ...)
+        from checks import c04
+        return list(c04.apply_ops(c04.build_source(group["src"], {}), group["ops"], {}))
     for name, a in group["ops"]:
-        if name == "logged":
+        if name == "materialize":
+            envs = envs.materialize()
+        elif name == "logged":
             envs = envs.logged(build_learner(a["learner"]), seed=a.get("seed", 1.23))
         elif name == "shuffle_n":
             envs = envs.shuffle(n=a["n"])
@@ -250,6 +254,12 @@ def run_simulated(spec, config, seed, choices=None, result_file=None, knobs=None
     return sim, outcome, out.get("result"), objs, sink
 
 
+def refused_to_pickle(sink):
+    """True when the multi-process run explicitly refused the experiment because a component cannot be pickled with
+    the standard pickler (cloudpickle is absent in this sandbox) - documented behaviour, outside the properties' scope."""
+    return any("unable to do so due to a pickle error" in str(x) for x in sink.items)
+
+
 def sim_summary(sim):
     return {"digest": sim.digest(), "trace": sim.trace, "decisions": sim.n_decisions, "switches": sim.n_switches,
             "sim_s": sim.now, "counters": dict(sim.counters)}
@@ -257,6 +267,15 @@ def sim_summary(sim):
 
 # ----------------------------------------------------------------------------- spec generation
 def gen_env_group(rng, idx, allow=("linear", "neighbors", "bandit", "tagged", "supervised", "supervised"), small=False):
+    if not small and rng.random() < 0.25:
+        # a source + filter chain from the read-history generator (wider alphabet of filters); a chunk() is often appended
+        from checks import c04
+        src = c04.gen_src(rng)
+        if src[0] not in ("linear", "neighbors", "bandit", "tagged"):
+            ops = c04.gen_ops(rng, src)
+            if rng.random() < 0.4:
+                ops.append(["chunk", {"cache": rng.random() < 0.8}])
+            return {"src": src, "ops": ops}
     kind = weighted(rng, [(k, 1) for k in allow])
     n = weighted(rng, [(5, 1), (12, 2), (24, 2), (26, 2), (40, 2), (55, 1), (70, 1)]) if not small else weighted(rng, [(3, 1), (6, 2), (10, 1)])
     if kind == "linear":
@@ -309,6 +328,8 @@ def gen_env_group(rng, idx, allow=("linear", "neighbors", "bandit", "tagged", "s
             ops.append(["sort", {}])
     if rng.random() < 0.15 and not any(x[0] == "chunk" for x in ops):
         ops.append(["chunk", {"cache": rng.random() < 0.5}])
+    if rng.random() < 0.08 and not any(x[0] == "batch" for x in ops):
+        ops.append(["materialize", {}])
     return {"src": src, "ops": ops}
 
 
